@@ -1217,6 +1217,13 @@ where
                 }
             }
         }
+        // A server only learns from the CONNECT whose session to restore. When the peer's
+        // Receive Maximum is already known (CONNECT received, CONNACK not sent yet), the
+        // restored exchanges count against it like those of a session resumed in place.
+        if self.publish_send_max.is_some() {
+            let incomplete = self.pid_puback.len() + self.pid_pubrec.len() + self.pid_pubcomp.len();
+            self.publish_send_count = incomplete.min(u16::MAX as usize) as u16;
+        }
     }
 
     /// Get stored packets for persistence
